@@ -4,6 +4,7 @@ import Driver.Render
 import Driver.Cascade
 import Driver.Links
 import Driver.Build
+import Driver.Structure
 open Driver
 
 def step (line : String) : String :=
@@ -19,6 +20,11 @@ def step (line : String) : String :=
   | "light" :: args => handleRender "light" args
   | "hrefchain" :: args => handleLinks "hrefchain" args
   | "enterdef" :: args => handleLinks "enterdef" args
+  | "origints" :: args => handleStructure "origints" args
+  | "usets" :: args => handleStructure "usets" args
+  | "rxry" :: args => handleStructure "rxry" args
+  | "rxryobs" :: args => handleStructure "rxryobs" args
+  | "switch" :: args => handleStructure "switch" args
   | "build" :: args => handleBuild args
   | "casc" :: args => handleCascade "casc" args
   | "expand" :: args => handleCascade "expand" args
